@@ -32,4 +32,224 @@ def timestampBeforeLock (ts : Int) (verify : Bool) : Bytes :=
 def timestampBetweenLock (b e : Int) (verify : Bool) : Bytes :=
   timestampAfterLock b true ++ timestampBeforeLock e verify
 
+
+/-! ### assembler helpers (opcode numbers as in `Model/Asm.lean`) -/
+def u2 (n : Nat) : Bytes := natToBytesBE 2 n
+def pushB (v : Bytes) : Bytes := (pushBytes v).getD []
+def ifOp (body : Bytes) : Bytes := opc 43 ++ u2 body.length ++ body
+def ifElse (a b : Bytes) : Bytes := opc 44 ++ u2 a.length ++ a ++ u2 b.length ++ b
+def defOp (h : Nat) (body : Bytes) : Bytes := opc 41 ++ opc h ++ u2 body.length ++ body
+def writeCache (key : String) (n : Nat) : Bytes := opc 9 ++ opc key.length ++ asciiBytes key ++ opc n
+def readCache (key : String) : Bytes := opc 10 ++ opc key.length ++ asciiBytes key
+/-- `@= name [ v ]` -/
+def setVar1 (key : String) (v : Bytes) : Bytes := pushB v ++ writeCache key 1
+
+def DUP := opc 29
+def SHA256 := opc 30
+def SHAKE256 (n : Nat) := opc 31 ++ opc n
+def EQUAL := opc 33
+def EQUAL_VERIFY := opc 34
+def CHECK_SIG (flags : Nat) := opc 35 ++ opc flags
+def EVAL := opc 45
+def SWAP (i j : Nat) := opc 52 ++ opc i ++ opc j
+def SWAP2 := opc 53
+def CSS := opc 74
+def SPLIT := opc 56
+def POP0 := opc 6
+def CALL (h : Nat) := opc 42 ++ opc h
+def TRUE_ := opc 1
+def FALSE_ := opc 0
+
+variable (H : Hashes) (C : Curve)
+
+/-- `make_single_sig_lock` -/
+def singleSigLock (pk : Bytes) (flags : Nat) : Bytes := pushB pk ++ CHECK_SIG flags
+
+/-- `make_single_sig_lock2` (the key is committed by a 20-byte SHAKE-256 hash) -/
+def singleSigLock2 (pk : Bytes) (flags : Nat) : Bytes :=
+  DUP ++ SHAKE256 20 ++ pushB (H.shake256 pk 20) ++ EQUAL_VERIFY ++ CHECK_SIG flags
+
+/-- `make_multisig_lock` (quorum guard: `m ≤ #unique keys`, else ValueError = `none`) -/
+def multisigLock (pks : List Bytes) (m flags : Nat) : Option Bytes :=
+  if m ≤ pks.eraseDups.length then
+    some ((pks.flatMap pushB) ++ opc 70 ++ opc flags ++ opc m ++ opc pks.length)
+  else none
+
+/-- `make_scripthash_lock` -/
+def scripthashLock (script : Bytes) (hashsize : Nat) : Bytes :=
+  DUP ++ SHAKE256 hashsize ++ pushB (H.shake256 script hashsize) ++ EQUAL_VERIFY ++ EVAL
+
+def scripthashWitness (script : Bytes) : Bytes := pushB script
+
+/-- `make_graftroot_lock` -/
+def graftrootLock (pk : Bytes) (flags : Nat) : Bytes :=
+  setVar1 "k" pk ++
+  ifElse (DUP ++ SWAP 1 2 ++ readCache "k" ++ CSS ++ opc VERIFY ++ EVAL)
+         (readCache "k" ++ CHECK_SIG flags)
+
+/-- the taproot root `P + clamp(sha256(P ‖ commitment)) • G` as the builder computes it -/
+def taprootRoot (pk commitment : Bytes) : R Bytes := do
+  let t ← Sodium.clampScalar (H.sha256 (pk ++ commitment)) false
+  let X ← Sodium.derivePoint C t
+  Sodium.aggregatePoints C [pk, X]
+
+/-- `make_taproot_lock` -/
+def taprootLock (pk commitment : Bytes) (flags : Nat) : R Bytes := do
+  let root ← taprootRoot H C pk commitment
+  pure (pushB root ++ opc 91 ++ opc flags)
+
+def graftapCommitted (pk : Bytes) : Bytes :=
+  DUP ++ SWAP 1 2 ++ pushB pk ++ CSS ++ opc VERIFY ++ EVAL
+
+/-- `make_graftap_lock` -/
+def graftapLock (pk : Bytes) (flags : Nat) : R Bytes :=
+  taprootLock H C pk (H.sha256 (graftapCommitted pk)) flags
+
+def taprootScriptspendWitness (pk script : Bytes) : Bytes := pushB script ++ pushB pk
+
+/-- `make_nonnative_taproot_lock` -/
+def nonnativeTaprootLock (pk commitment : Bytes) (flags : Nat) : R Bytes := do
+  let root ← taprootRoot H C pk commitment
+  let cond := DUP ++ opc 8 ++ pushInt 32 ++ EQUAL
+  let a := DUP ++ SWAP 0 2 ++ DUP ++ SWAP 1 3 ++ SHA256 ++ opc 55 ++ SHA256 ++ opc 76 ++ opc 0 ++
+           opc 79 ++ opc 27 ++ opc 2 ++ CALL 0 ++ EQUAL_VERIFY ++ EVAL
+  let b := CALL 0 ++ CHECK_SIG flags
+  pure (defOp 0 (pushB root) ++ cond ++ ifElse a b)
+
+/-- the time-locked alternative of the HTLC / PTLC locks -/
+def refundArm (deadline : Int) (refund : Bytes) : Bytes := pushInt deadline ++ opc CTSV ++ pushB refund
+
+/-- `make_htlc_sha256_lock` / `make_htlc_shake256_lock` (`hashOp` = SHA256 or SHAKE256 n) -/
+def htlcLock (hashOp digest receiver refund : Bytes) (deadline : Int) (flags : Nat) : Bytes :=
+  hashOp ++ pushB digest ++ EQUAL ++ ifElse (pushB receiver) (refundArm deadline refund) ++ CHECK_SIG flags
+
+/-- `make_htlc2_*_lock` (keys committed by hash; `hs` = key-hash size) -/
+def htlc2Lock (hashOp digest receiver refund : Bytes) (hs : Nat) (deadline : Int) (flags : Nat) : Bytes :=
+  hashOp ++ pushB digest ++ EQUAL ++
+  ifElse (DUP ++ SHAKE256 hs ++ pushB (H.shake256 receiver hs))
+         (pushInt deadline ++ opc CTSV ++ DUP ++ SHAKE256 hs ++ pushB (H.shake256 refund hs)) ++
+  EQUAL_VERIFY ++ CHECK_SIG flags
+
+/-- `make_ptlc_lock` (with a tweak point the claim key is `receiver + T`) -/
+def ptlcLock (receiver refund : Bytes) (tweak : Option Bytes) (deadline : Int) (flags : Nat) : R Bytes := do
+  let claim ← (match tweak with
+    | some T => Sodium.aggregatePoints C [receiver, T]
+    | none => pure receiver)
+  pure (ifElse (pushB claim) (refundArm deadline refund) ++ CHECK_SIG flags)
+
+/-- the certificate-checking prelude shared by the two delegation locks (after the authorizing
+    key handling): splits the cert, checks the window, checks the cert signature -/
+def certChecks (keepCan : Bool) : Bytes :=
+  pushInt 41 ++ SPLIT ++ writeCache "s" 1 ++ DUP ++
+  pushInt 40 ++ SPLIT ++ (if keepCan then writeCache "c" 1 else POP0) ++
+  pushInt 36 ++ SPLIT ++ writeCache "e" 1 ++
+  pushInt 32 ++ SPLIT ++ writeCache "b" 1 ++ writeCache "d" 1 ++
+  readCache "b" ++ opc CTSV ++
+  readCache "e" ++ opc CTS ++ opc NOT ++ opc VERIFY ++
+  readCache "s" ++ SWAP2
+
+/-- `make_delegate_key_lock` -/
+def delegateKeyLock (root : Bytes) (flags : Nat) : Bytes :=
+  certChecks false ++ pushB root ++ CSS ++ opc VERIFY ++ readCache "d" ++ CHECK_SIG flags
+
+/-- `make_delegate_key_chain_lock` -/
+def delegateKeyChainLock (root : Bytes) (flags : Nat) : Bytes :=
+  let body := writeCache "r" 1 ++ certChecks true ++ readCache "r" ++ CSS ++ opc VERIFY ++
+    readCache "c" ++ opc 88 ++
+    ifElse (readCache "d" ++ CALL 0) (readCache "d" ++ CHECK_SIG flags)
+  defOp 0 body ++ pushB root ++ CALL 0
+
+/-! ### certificates -/
+structure Certificate where
+  delegate : Bytes
+  beginTs : Nat
+  endTs : Nat
+  may : Bool
+  signature : Bytes
+deriving DecidableEq, Repr
+
+def pad4 (n : Nat) : Bytes := natToBytesBE 4 n
+
+/-- `Certificate.preimage` (fields in range: 32-byte key, timestamps `< 2^31`) -/
+def Certificate.preimage (c : Certificate) : Bytes :=
+  c.delegate ++ pad4 c.beginTs ++ pad4 c.endTs ++ [if c.may then 0xff else 0x00]
+
+def Certificate.pack (c : Certificate) : Bytes := c.preimage ++ c.signature
+
+/-- `Certificate.unpack` (105 bytes) -/
+def Certificate.unpack (b : Bytes) : Option Certificate :=
+  if b.length = 105 then
+    some { delegate := b.take 32, beginTs := natOfBytesBE ((b.drop 32).take 4),
+           endTs := natOfBytesBE ((b.drop 36).take 4), may := (b.drop 40).head? = some 0xff,
+           signature := b.drop 41 }
+  else none
+
+/-! ### merklized script trees -/
+inductive Tree
+  | leaf (script : Bytes)
+  | node (l r : Tree)
+deriving Repr, DecidableEq
+
+mutual
+/-- `commitment()` of a leaf / node -/
+def Tree.commitment : Tree → Bytes
+  | .leaf s => H.sha256 s
+  | .node l r => H.sha256 (opc 60 ++ Tree.root (.node l r))
+/-- `ScriptNode.root()`: xor of the hashes of the two children's commitments -/
+def Tree.root : Tree → Bytes
+  | .leaf s => H.sha256 s
+  | .node l r => xorBytes (H.sha256 (Tree.commitment l)) (H.sha256 (Tree.commitment r))
+end
+
+/-- `ScriptNode.locking_script()` -/
+def Tree.lockScript (t : Tree) : Bytes := opc 60 ++ Tree.root H t
+
+/-- what a subtree contributes as the *executed* script of its level: a leaf's own script, a
+    node's locking script -/
+def Tree.code (t : Tree) : Bytes :=
+  match t with
+  | .leaf s => s
+  | .node _ _ => Tree.lockScript H t
+
+/-- the unlocking script of the leaf reached by `path` (false = left) from the root, as
+    `ScriptLeaf.unlocking_script()` builds it: innermost level first -/
+def Tree.unlock : Tree → List Bool → Option Bytes
+  | .leaf _, [] => some []
+  | .leaf _, _ :: _ => none
+  | .node _ _, [] => none
+  | .node l r, d :: rest =>
+    let (sub, sib) := if d then (r, l) else (l, r)
+    match Tree.unlock sub rest with
+    | some inner => some (inner ++ pushB (Tree.commitment H sib) ++ pushB (Tree.code H sub))
+    | none => none
+
+/-- `ScriptNode.pack()` (children shorter than 2^16 bytes) -/
+def Tree.pack : Tree → Bytes
+  | .leaf s => s
+  | .node l r =>
+    let pl := Tree.pack l
+    let pr := Tree.pack r
+    (match l with | .leaf _ => [76] | .node _ _ => [78]) ++ u2 pl.length ++ pl ++
+    (match r with | .leaf _ => [76] | .node _ _ => [78]) ++ u2 pr.length ++ pr
+
+/-- `ScriptNode.unpack()`; fuel bounds the nesting depth -/
+def Tree.unpack : Nat → Bytes → Option Tree
+  | 0, _ => none
+  | fuel+1, b =>
+    match b with
+    | lt :: b1 =>
+      let ll := natOfBytesBE (b1.take 2)
+      let ld := (b1.drop 2).take ll
+      match (b1.drop 2).drop ll with
+      | rt :: b2 =>
+        let rl := natOfBytesBE (b2.take 2)
+        let rd0 := b2.drop 2
+        let rd := if rd0.length > rl then rd0.take rl else rd0
+        let sub (ty : UInt8) (d : Bytes) : Option Tree := if ty = 76 then some (.leaf d) else Tree.unpack fuel d
+        match sub lt ld, sub rt rd with
+        | some l, some r => some (.node l r)
+        | _, _ => none
+      | [] => none
+    | [] => none
+
 end TV.Tools
